@@ -60,6 +60,14 @@ ASSUMPTIONS = [
     "correspondence is exhaustive only over the stated small alphabets (bounded); the fault-injection stream is random",
     "V_hashes is answered with the number of '#' CHARACTERS of the rendered string (the rule of the statement), not "
     "with the implementation's helper; the position-independence of the rule is C08_fault_*_hash_anywhere",
+    "letter-case insensitivity of tag names (Definition/Def/Def-expand and ordinary tags) lives inside the abstract "
+    "string-level validators: proved is only that every string of every HED-bearing entry reaches them "
+    "(C08_definitions_from_every_string); that 'definition/X' declares and 'DEF/x' uses a definition is TESTED (letter "
+    "case is a dimension of the rule-abiding and definition streams); rule-abiding sidecars whose definition strings "
+    "hold '#' are outside struct_ok (Coq) and are checked for cleanliness on the implementation only",
+    "rarely used parameters (name, extra_def_dicts empty in several forms, error_handler without warnings), column "
+    "order incl. the position of the definition column, many-column documents and numeric edge values (-0.0, NaN, "
+    "1e308, big ints) are generator dimensions (tested)",
     "equivalence of the entry points (Sidecar.validate, SidecarValidator.validate, list of files, file path, two merged "
     "files) and independence of the answer from an earlier validate() on the same object are TESTED only (every "
     "generated case is run through one of them in rotation and compared with the entry-point-agnostic model)",
@@ -95,7 +103,7 @@ def jsx(x):
     if isinstance(x, bool):
         return ["B", 1 if x else 0]
     if isinstance(x, (int, float)):
-        return ["I", 0 if x == 0 else (abs(int(x)) or 1)]
+        return ["I", 0 if x == 0 else 1]      # only truthiness matters (-0.0 is falsy; NaN, inf, 1e308 are truthy)
     if isinstance(x, str):
         return ["S", C.cps(x)]
     if isinstance(x, list):
@@ -117,17 +125,33 @@ def canon(issues):
 
 
 ENTRY_MODES = ["Sidecar.validate", "SidecarValidator.validate", "list-of-files", "file-path", "validate-twice",
-               "two-merged-files"]
+               "two-merged-files", "name+empty-extra-def-dicts", "error-handler-without-warnings"]
+ERRORS_ONLY_MODES = {7}     # the caller asked for errors only: warnings are compared as absent
+
+
+EQUIV_MODES = {1, 2, 3, 5, 6}      # must give exactly the answer of the plain entry point (mode 0)
 
 
 def impl_one(text, mode=0):
+    """impl_mode, plus for the equivalent entry points a direct comparison with the plain entry point."""
+    r = impl_mode(text, mode)
+    if mode in EQUIV_MODES:
+        base = impl_mode(text, 0)
+        if base != r:
+            return ["entry", base, r]
+    return r
+
+
+def impl_mode(text, mode=0):
     """Observable behaviour of the implementation on one JSON text.
 
     mode selects the entry point / history (all must give the same answer):
       0 Sidecar(io).validate(schema)              1 SidecarValidator(schema).validate(Sidecar(io))
       2 Sidecar([io]).validate(schema)            3 Sidecar(path of a scratch file).validate(schema)
       4 the same Sidecar object validated twice (both answers reported)
-      5 the columns split over two files that are merged by Sidecar([io1, io2]) (objects only)"""
+      5 the columns split over two files that are merged by Sidecar([io1, io2]) (objects only)
+      6 the rarely used parameters: Sidecar(io, name=...).validate(schema, extra_def_dicts=<empty>, name=...)
+      7 validate(schema, error_handler=ErrorHandler(check_for_warnings=False)): same errors, no warnings"""
     from hed.models.sidecar import Sidecar
     from hed.validator.sidecar_validator import SidecarValidator
     tmp = None
@@ -154,6 +178,15 @@ def impl_one(text, mode=0):
         try:
             if mode == 1:
                 issues = SidecarValidator(schema()).validate(sc)
+            elif mode == 6:
+                from hed.models.definition_dict import DefinitionDict
+                extra = [[DefinitionDict()], DefinitionDict(), [], [DefinitionDict(), DefinitionDict()], None][len(text) % 5]
+                issues = sc.validate(schema(), extra_def_dicts=extra, name="task-x_events.json")
+            elif mode == 7:
+                from hed.errors import ErrorHandler
+                issues = sc.validate(schema(), error_handler=ErrorHandler(check_for_warnings=False))
+                if isinstance(issues, list) and any(c[1] == 0 for c in canon(issues)):
+                    return ["exn", "validate", "warning-returned-although-errors-only-requested"]
             else:
                 issues = sc.validate(schema())
             if mode == 4:
@@ -293,7 +326,11 @@ def col_strings(v):
     return [h] if isinstance(h, str) else list(h.values())
 
 
-def struct_ok(doc, chk_hash=True):
+def is_definition_string(s):
+    return "definition/" in s.lower()
+
+
+def struct_ok(doc, chk_hash=True, defs_exempt=False):
     """The structural rules of the statement, written from the statement (not from the code).
     chk_hash=False: every rule except the '#' counts (Coq: struct_ok_but_hash)."""
     if not isinstance(doc, dict) or "HED" in doc:
@@ -312,7 +349,8 @@ def struct_ok(doc, chk_hash=True):
         if chk_hash and kinds[k] == "value" and strs[0].count("#") != 1:
             return False
         if kinds[k] == "cat":
-            if "n/a" in v["HED"] or (chk_hash and any("#" in s for s in strs)):
+            if "n/a" in v["HED"] or (chk_hash and any("#" in s for s in strs
+                                                       if not (defs_exempt and is_definition_string(s)))):
                 return False
         rs = []
         for s in strs:
@@ -444,6 +482,10 @@ def oracle(case, r, res):
     if FIXED and r == ["exn", "load", "HedFileError"] and not isinstance(doc, dict):
         return      # repaired behaviour: a document that is not an object is refused with the documented HedFileError
     rep["entry"] = ENTRY_MODES[case.get("mode", 0)]
+    if r[0] == "entry":
+        res.report("entry-point-equivalence", rep, f"{ENTRY_MODES[case.get('mode', 0)]} gives {r[2]} but the plain "
+                                                   f"Sidecar(io).validate(schema) gives {r[1]}")
+        return
     if r[0] == "history":
         res.report("history-independent", rep, f"the same Sidecar object validated twice: first {r[1]} then {r[2]}")
         return
@@ -452,6 +494,10 @@ def oracle(case, r, res):
         return
     errs = [c for c, e in r[1] if e]
     ok = struct_ok(doc)
+    if case.get("valid_strings") and not ok and struct_ok(doc, defs_exempt=True) and errs:
+        # definition strings may hold '#' (the placeholder rule is about the entries outside definitions); not covered
+        # by the Coq predicate struct_ok, checked on the implementation only
+        res.report("wellformed-clean", rep, f"error codes {errs} on a rule-abiding sidecar with placeholder definitions")
     if case.get("valid_strings") and ok and errs:
         res.report("wellformed-clean", rep, f"error codes {errs} on a structurally well-formed sidecar")
     elif ok and set(errs) & STRUCT_ONLY_CODES:
@@ -540,8 +586,53 @@ CAT_STR = ["Red", "Blue", "Green", "(Square, Large)", "Sensory-event", "Agent-ac
 VAL_STR = ["Label/#", "(Weight/# kg, Yellow)", "Description/#", "Parameter-value/#", "ID/#", "(Age/# years, Violet)",
            "Description/# and more", "(Label/#, (Maroon, Small))"]
 # value strings whose single '#' stands in a Def / Def-expand of the definition column (rarely used entity kinds)
-DEF_VAL_STR = ["Def/Acc/#", "(Def-expand/Acc/#, (Acceleration/# m-per-s^2, Purple)), Olive", "(Def/Acc/#, Olive)"]
-DEF_STR = ["(Definition/MyDef, (Triangle, Small))", "(Definition/Acc/#, (Acceleration/# m-per-s^2, Purple))"]
+DEF_VAL_STR = ["Def/Acc/#", "(Def-expand/Acc/#, (Label/#, Purple)), Olive", "(Def/Acc/#, Olive)"]
+DEF_STR = ["(Definition/MyDef, (Triangle, Small))", "(Definition/Acc/#, (Label/#, Purple))"]
+DEF_HEADS = {"definition", "def", "def-expand"}
+TOKEN_RE = re.compile(r"[^,()]+")
+
+
+def recase(text, rng, style):
+    """Letter case of tag names as an input dimension (HED tags are case-insensitive): the first path component of
+    every tag -- and the definition name after Definition/Def/Def-expand -- is rewritten; values, units, '#' and
+    {references} are left alone.  style: lower / upper / swap / mixed (each tag draws its own)."""
+    def one(word, st):
+        if st == "lower":
+            return word.lower()
+        if st == "upper":
+            return word.upper()
+        if st == "swap":
+            return word.swapcase()
+        return word
+
+    def tok(m):
+        t = m.group(0)
+        body = t.strip()
+        if not body or body.startswith("{") or "{" in body:
+            return t
+        st = style if style != "mixed" else rng.choice(["lower", "upper", "swap", "same"])
+        parts = body.split("/")
+        head = parts[0]
+        parts[0] = one(head, st)
+        if head.lower() in DEF_HEADS and len(parts) > 1 and parts[1] != "#" and rng.random() < 0.5:
+            parts[1] = one(parts[1], rng.choice(["lower", "upper", "swap"]))
+        return t.replace(body, "/".join(parts))
+    return TOKEN_RE.sub(tok, text)
+
+
+def recase_doc(doc, rng):
+    """Apply one letter-case style to every HED string of the document (in place)."""
+    style = rng.choice(["lower", "upper", "swap", "mixed", "mixed"])
+    for v in doc.values():
+        if isinstance(v, dict) and "HED" in v:
+            h = v["HED"]
+            if isinstance(h, str):
+                v["HED"] = recase(h, rng, style)
+            elif isinstance(h, dict):
+                for k in h:
+                    if isinstance(h[k], str):
+                        h[k] = recase(h[k], rng, style)
+    return style
 IGN_VAL = [{"Description": "free text"}, {"Levels": {"1": "one", "2": "two"}, "LongName": "x"}, {"Units": "s"}, {}]
 if FIXED:   # BIDS metadata that is not an object (legal since fix ae9929b)
     IGN_VAL = IGN_VAL + ["rest", 3, None, ["a", {"x": 1}], True, 0, ""]
@@ -553,13 +644,15 @@ TAIL_OF = {"trial_type": "Cyan", "response": "Magenta", "rt": "Pink", "stim_file
 
 def gen_wellformed(rng):
     """A structurally well-formed sidecar whose strings and substitutions are individually valid."""
-    n = rng.randint(1, 4)
+    n = rng.randint(1, 4) if rng.random() < 0.95 else rng.randint(8, 13)     # degenerate sizes: many columns
     names = rng.sample(COLNAMES, n)
     doc, kinds = {}, {}
     avail_cat = rng.sample(CAT_STR, len(CAT_STR))     # every string is used at most once per document
     avail_val = rng.sample(VAL_STR, len(VAL_STR))
     for nm in names:
         k = rng.choice(["cat", "cat", "value", "value", "ignore"])
+        if (k == "cat" and len(avail_cat) < 3) or (k == "value" and not avail_val):
+            k = "ignore"
         kinds[nm] = k
         if k == "cat":
             keys = rng.sample(CATKEYS, rng.randint(1, 3))
@@ -596,6 +689,13 @@ def gen_wellformed(rng):
         free = [h for h in hed if "{" not in json.dumps(doc[h])]
         if free:
             _add_ref(doc, free[0], "HED", rng)
+    if "defs" in doc and rng.random() < 0.6:      # ordering: the definitions need not come last
+        items = list(doc.items())
+        d_item = items.pop()
+        items.insert(rng.randint(0, len(items)), d_item)
+        doc = dict(items)
+    if rng.random() < 0.5:                          # letter case of tag names
+        recase_doc(doc, rng)
     return doc, kinds
 
 
@@ -779,7 +879,7 @@ def inject_fault(doc, kinds, rng):
     return None
 
 
-DEF_OK = ["(Definition/MyDef, (Triangle, Small))", "(Definition/Acc/#, (Acceleration/# m-per-s^2, Purple))",
+DEF_OK = ["(Definition/MyDef, (Triangle, Small))", "(Definition/Acc/#, (Label/#, Purple))",
           "(Definition/Third, (Item/Object, Large))"]
 DEF_BAD = ["(Definition/MyDef, (Square))", "(Definition/Bad/#, (Red))", "(Definition/NoPh, (Label/#))",
            "(Definition/Two, (Red), (Blue))", "(Definition/Nest, (Definition/Inner, (Red)))", "Definition/Bare",
@@ -801,13 +901,19 @@ def gen_definition_docs(rng, n):
             doc["val"] = {"HED": rng.choice(["Def/Acc/#", "Label/#, Def/MyDef", "Def/Missing/#", "Label/#"])}
         if rng.random() < 0.3:
             doc["defs2"] = {"HED": {"e": rng.choice(DEF_OK + DEF_BAD)}}
+        if rng.random() < 0.5:
+            items = list(doc.items())
+            rng.shuffle(items)
+            doc = dict(items)
+        if rng.random() < 0.5:
+            recase_doc(doc, rng)
         out.append(doc)
     return out
 
 
 def gen_malformed(rng):
     """Random junk at every depth (separate malformed stream)."""
-    pool = [None, True, False, 0, 1, 2.5, "", "Red", "Red/#", "{a}", "{b}", "{zz}", "{HED}", "Label/#, {b}", "}{",
+    pool = [None, True, False, 0, 1, 2.5, -0.0, 1e308, float("nan"), 10 ** 30, -1, "", "Red", "Red/#", "{a}", "{b}", "{zz}", "{HED}", "Label/#, {b}", "}{",
             "{a}{b}", "n/a", "#", "{ſ}", "{a b}", "(Red", "Blue, {a}"]
 
     def val(d):
@@ -870,7 +976,7 @@ def make_cases(tier, seed, widen):
     # definition-bearing sidecars with and without faulty definitions (state kept on the Sidecar object between
     # calls: cached definition dict and definition issues), each through the plain and the validate-twice path
     for d in gen_definition_docs(rng, 40 if tier == "quick" else 400):
-        for m in (0, 4, 1):
+        for m in (0, 4, 1, 6, 7):
             add(d, "defs")
             cases[-1]["mode"] = m
     docs, ncols = enum_docs(tier)
@@ -973,6 +1079,8 @@ def run(tier, seed, res, model_ok=True, proof_ok=True):
             else:
                 mc = ["driver-error", m, table if isinstance(table, str) else ""]
             ic = ["exn", r[2]] if r[0] == "exn" else r
+            if c["mode"] in ERRORS_ONLY_MODES and mc[0] == "ok":
+                mc = ["ok", [x for x in mc[1] if x[1] == 1]]
             if mc != ic:
                 disagreements += 1
                 probe = C.Result(PROP)
@@ -1017,7 +1125,7 @@ def run(tier, seed, res, model_ok=True, proof_ok=True):
     distinct = len({c["text"] for c in cases if nontrivial(c["doc"])})
     hist = {}
     for c, r in zip(cases, impl):
-        key = c["kind"] + ":" + (r[0] if r[0] == "ok" else r[2])
+        key = c["kind"] + ":" + (r[0] if r[0] in ("ok", "entry", "history") else r[2])
         hist[key] = hist.get(key, 0) + 1
     faults = {}
     for c in cases:
@@ -1032,8 +1140,8 @@ def run(tier, seed, res, model_ok=True, proof_ok=True):
                 f"position to depth 3, thorough: plus three columns a,b,c over a sub-alphabet: {nenum} documents, "
                 f"exhaustive for that alphabet) + well-formed sidecars over real "
                 "schema tags (column names with digits/hyphens/underscores, odd category keys, Def/Def-expand value strings), "
-                "each with 3 single injected faults ('#' faults placed in the same tag / another tag / another group / "
-                "next to a reference) + random malformed documents; every non-corpus case goes through one of 6 entry "
+                "in several letter cases, definition column anywhere, up to 13 columns, each with 3 single injected faults ('#' faults placed in the same tag / another tag / another group / "
+                "next to a reference) + random malformed documents; every non-corpus case goes through one of 8 entry "
                 "points/histories in rotation; non-trivial = top-level "
                 "object with at least one column that is an object with a HED entry",
         "samples": [cases[0]["text"], cases[len(CORPUS) + nenum // 2]["text"], cases[len(CORPUS) + nenum + 1]["text"],
